@@ -332,7 +332,7 @@ static void gen_vec(rng &r, bool thorough)
                     }
                 }
                 // C. random histories
-                int ncases = thorough ? 120 : 14;
+                int ncases = thorough ? 320 : 14;
                 for (int q = 0; q < ncases; q++)
                 {
                     int K = 3;
@@ -503,7 +503,7 @@ static void gen_str(rng &r, bool thorough)
             P("scstr 0");
             P("sdel 0");
             // E. random histories
-            for (int q = 0; q < (thorough ? 60 : 8); q++)
+            for (int q = 0; q < (thorough ? 160 : 8); q++)
             {
                 int K = 2;
                 P(sreset(tw, N, K));
@@ -576,7 +576,7 @@ static void gen_ua(rng &r, bool thorough)
                     P("uresize 1 " + S(r.range(0, 4)));
                     P("finish");
                 }
-        for (int q = 0; q < (thorough ? 100 : 12); q++)
+        for (int q = 0; q < (thorough ? 300 : 12); q++)
         {
             int K = 3;
             P(std::string("reset ua ") + ty + " 3");
